@@ -14,7 +14,7 @@ from ..projection import project, digest
 _G = {}
 
 PARSE_INPUTS = [
-    "a = 1\nb = 2\nEND\n",
+    "a = 1\nb = 2\nq = 5 <ms>\nz = 0 <m>\nEND\n",
     "a =\nb = 2\nEND\n",
     "a = 1\nb =\nc =\nEND\n",
     "a =\nb = (1, 2\nc = 3\nEND\n",
@@ -24,7 +24,7 @@ PARSE_INPUTS = [
     "GROUP = g\n  a =\nEND_GROUP\nq = 'x'\nEND\n",
     "GROUP = g\n  OBJECT = o\n    a = 1\n  END_OBJECT = wrong_name\nEND_GROUP\nEND\n",
     "OBJECT = h\n  GROUP = k\n    a = 1\n",
-    "a = 1 # note\nb = +x\nEND\n",
+    "a = 1 # note\nb = +x\nq = 5.0 <ms>\nz = -0.0 <m>\nEND\n",      # equal to the quantities of input 1 as numbers, not as values
     "x = */\ny = a*/\n",
 ]
 INPUT_CLASS = {1: "clean", 2: "missing-values", 3: "missing-values", 4: "fails-after-repair", 5: "fails-at-once",
@@ -47,8 +47,12 @@ def encode_inputs():
         PVLModule(k={1.5, "a b"}),
         PVLModule(a="caf\u0101"),                  # a character no dialect's character set has
         PVLModule([("b", "x\u0101y"), ("c", 2)]),
-        PVLModule([("o", PVLObject([("h", PVLObject(a=True))])), ("t", datetime.time(12, 0, 0))]),
-        PVLModule([("g", PVLGroup([("s", "12:00-01"), ("n", None)]))]),
+        # two times that are the same instant (equal, same hash) but must be written differently
+        PVLModule([("o", PVLObject([("h", PVLObject(a=True))])), ("t", datetime.time(12, 0, 0, tzinfo=datetime.timezone.utc)),
+                   ("d", datetime.datetime(2001, 1, 1, 12, 0, 0, tzinfo=datetime.timezone.utc))]),
+        PVLModule([("g", PVLGroup([("s", "12:00-01"), ("n", None)])),
+                   ("t", datetime.time(13, 0, 0, tzinfo=datetime.timezone(datetime.timedelta(hours=1)))),
+                   ("d", datetime.datetime(2001, 1, 1, 13, 0, 0, tzinfo=datetime.timezone(datetime.timedelta(hours=1))))]),
     ]
 
 
